@@ -18,7 +18,7 @@ MANIFEST = dict(
          "outputs: C19_psbt_bare_claims). C19_frame / C19_framed_stream / C19_read_message: the u32 length framing inverts, and any "
          "number of messages written back to back are read back one by one by read / read_message, leaving the rest of the stream. "
          "The combinators, the dispatch and the PSBT post-processing are compared with "
-         "the real as_vec / msgs::from_vec / msgs::write / read / read_message / from_reader on generated values of all registry types (boundary-driven), on malformed byte "
+         "the real as_vec / msgs::from_vec / msgs::write / read / read_message / from_reader (and the typed T::from_vec) on generated values of all registry types (boundary-driven), on malformed byte "
          "strings and on consistent/inconsistent PSBTs on every run, with a round-trip monitor on the implementation.",
     design="§4 C19",
     note=lib.TB + "Additionally trusted: tools/gen_wire.py (reads struct/field/type/message_id/enum order; anything it does not "
@@ -32,7 +32,7 @@ MANIFEST = dict(
               "with the Rust implementation",
 )
 
-PINNED = ["C19_ids_unique", "C19_struct_codecs", "C19_registry", "C19_wf_from_size", "C19_registry_sized", "C19_psbt_sound", "C19_psbt_accepts", "C19_psbt_bare_claims", "C19_psbt_bare_legacy_refused",
+PINNED = ["C19_ids_unique", "C19_struct_codecs", "C19_registry", "C19_wf_from_size", "C19_registry_sized", "C19_psbt_sound", "C19_psbt_accepts", "C19_psbt_bare_claims", "C19_psbt_bare_legacy_refused", "C19_psbt_sibling_inputs",
           "C19_streamed_field", "C19_frame", "C19_framed_stream", "C19_read_message", "C19_nonvacuous", "C19_tlv_nonvacuous", "C19_psbt_nonvacuous", "C19_duplicate_id_misroutes",
           "C19_old_id20_refuted"]
 
@@ -126,7 +126,9 @@ def run(res):
                        "replay": "harness wire msgs --seed %d --n %d --tier %s %s" % (res.seed, n_rand, res.tier, c["ty"])})
     for c in mon_psbt[:2]:
         res.violation("StreamedPSBT: " + c["monitor_violation"],
-                      {"domain": "wire-psbt", "seed": c["seed"], "inputs": c["inputs"], "psbt_hex": c["psbt_hex"]})
+                      {"domain": "wire-psbt", "seed": c["seed"], "message": c.get("carrier"), "inputs": c["inputs"],
+                       "previous_transactions": c.get("shares"), "psbt_hex": c["psbt_hex"], "as_vec_hex": c.get("message_hex"),
+                       "replay": "harness wire psbt --seed %d --n %d" % (res.seed, n_psbt)})
     for c in mon_stream[:2]:
         res.violation("framed stream: " + c["monitor_violation"],
                       {"domain": "wire-framed", "seed": res.seed, "sequence": c["seq"], "types": c["types"], "values_coq": c["values"],
@@ -185,8 +187,10 @@ def run(res):
                 "framed: sequences of 2-4 messages (every registry type first or second in some sequence; minimal / maximal / random / one "
                 "long message) written with msgs::write (must equal write_vec(as_vec())), read back with msgs::read, read_message::<T> and "
                 "from_reader, nothing left; single frames with length +1 / -1 / < 2 / > max, stream ending early, short length prefix; "
-                "malformed: truncations, one extra byte, changed payload bytes, another type's id, unknown ids, oversize; psbt: PSBTs "
-                "whose inputs are bare / witness_utxo only about an admissible output (witness programs of every boundary shape, p2sh) / witness_utxo "
+                "malformed: truncations, one extra byte, changed payload bytes, another type's id, unknown ids, oversize; psbt: PSBTs with "
+                "1-4 inputs, each spending its own previous transaction, another output of a previous transaction an earlier input "
+                "(adjacent or not) spends too, or the very same outpoint again, carried in turn by SignWithdrawal / SignAnchorspend / "
+                "SignHtlcTxMingle and decoded both by msgs::from_vec and by the message's typed from_vec (which must agree); the inputs are bare / witness_utxo only about an admissible output (witness programs of every boundary shape, p2sh) / witness_utxo "
                 "only about a legacy output (p2pkh, p2sh-like scripts of 22 and 24 bytes and with each fixed opcode wrong, near-miss witness "
                 "programs: refused) / previous tx (+ matching, + mismatching value or script, wrong txid, vout out "
                 "of range) with scripts around every decision of is_witness_program and is_p2sh. Non-trivial: any message case other than the "
